@@ -12,6 +12,11 @@ Tie to the code:
      typedef / struct tag / enum tag / constant is looked up through the public
      API and must resolve to its own entry; near-miss undeclared names must not
      be found.  The tables of the generated module are also fed to the model.
+     Typedef-named anonymous structs/unions (tag "$name", including names that start with the letters
+     struct/union/enum and whose remainder is another declared tag) have their fields completed, which
+     re-looks the tag up by name through _unrealize_name.
+  C. `_realize_name` / `_unrealize_name` (text of the two functions taken from realize_c_type.c and
+     compiled unmodified) against their models on tags and names of every shape.
 """
 import ast
 import ctypes
@@ -27,8 +32,11 @@ MANIFEST = {
     "text": "Kernel-checked theorems that the model of search_sorted finds every declared name at its own index and "
             "no undeclared one, for every strictly sorted NUL-free table of any size (search_complete, search_sound, "
             "search_undeclared; the loop condition, midpoint, tests and interval updates inside the model are regenerated "
-            "from parse_c_type.c on every run) and that Python's sort order on ASCII identifiers is the byte order strncmp uses; "
-            "the model is tied to the code by running the repo's own search_sorted (compiled unmodified) and real "
+            "from parse_c_type.c on every run), that Python's sort order on ASCII identifiers is the byte order strncmp uses, and that "
+            "_unrealize_name inverts _realize_name for every space-free tag (unrealize_realize, unrealize_typedef_name; keyword "
+            "literals, lengths, offsets and the '$'-test regenerated from realize_c_type.c), so the lazy struct completion "
+            "searches the table for the tag the entry was stored under; "
+            "the model is tied to the code by running the repo's own search_sorted and name-mapping functions (compiled unmodified) and real "
             "generated modules against it on random identifier sets.",
     "note": "Trusted: Lean kernel; glibc strncmp; the correspondence harness; int overflow of left+right (> 2^30 entries) "
             "not modelled; non-ASCII identifiers not modelled (pycparser rejects them).",
@@ -47,7 +55,8 @@ sys.path.insert(0, os.path.join(common.VERIF, "translate"))
 
 def translators(ctx):
     import search_sorted
-    return [search_sorted.translator]
+    import realize_name
+    return [search_sorted.translator, realize_name.translator]
 
 
 ALPHA = "abAB_01zZ"
@@ -231,7 +240,27 @@ def make_cdef(rng, nmax):
         extra.append("typedef struct { char y[3]; } %s;" % ("T" + rng.choice(ALPHA) + "anon"))
     if rng.random() < 0.3:
         extra.append("typedef enum { C25_ANON_A, C25_ANON_B } c25_anon_enum_t;")
-    return {"consts": consts, "types": types, "stags": stags, "etags": etags, "extra": extra,
+    # typedef-named anonymous aggregates (tag "$name"): names that merely start with the letters
+    # struct / union / enum, next to a declared tag equal to the remainder ("struct_pt" + "struct pt")
+    anons = []
+    used = tset | set(consts)
+    for j in range(rng.randint(1, 3)):
+        kw = rng.choice(["struct", "union", "enum", "T"])
+        rest = rng.choice(stags) if (stags and rng.random() < 0.6) else "".join(rng.choice(ALPHA) for _ in range(2))
+        nm = kw + rng.choice(["_", "", "s", "d"]) + rest
+        if nm in used or nm in KEYWORDS:
+            continue
+        used.add(nm)
+        agg = rng.choice(["struct", "union"])
+        fields = ["c25f_%d_%d" % (j, i) for i in range(rng.randint(1, 3))]
+        src.append("typedef %s { %s } %s;" % (agg, " ".join("short %s;" % f for f in fields), nm))
+        anons.append([nm, fields])
+        if kw != "T" and nm[len(kw) + 1:] and rng.random() < 0.7:
+            other = nm[len(kw) + 1:]          # what is left after chopping "kw" + one character
+            if other not in stags and other not in KEYWORDS and other[0] not in "01":
+                stags = stags + [other]
+                src.append("struct %s { char x[%d]; };" % (other, len(stags)))
+    return {"consts": consts, "types": types, "stags": stags, "etags": etags, "extra": extra, "anons": anons,
             "cdef": "\n".join(src + extra) + "\n"}
 
 
@@ -319,12 +348,16 @@ def lookup_plan(ctx, d, has_lib):
             continue
         for i, n in enumerate(names):
             plan.append((kind, n, True, i + 1000 if kind.startswith("const") else i))
+            if kind == "struct":
+                plan.append(("struct-fields", n, True, ["x"]))
         for n in near_misses(ctx.rng, names, 8):
             if key == "consts" and (n in d["types"] or n.startswith("ENUMV_")):
                 continue
             if key == "types" and not n.startswith("T"):
                 continue
             plan.append((kind, n, False, None))
+    for nm, fields in d.get("anons", ()):
+        plan.append(("anon-fields", nm, True, fields))
     return plan
 
 
@@ -338,6 +371,8 @@ def lookup_run(plan, ffi, lib):
         "typedef": lambda n: ffi.sizeof(ffi.typeof(n)) // 4 - 1,
         "struct": lambda n: ffi.sizeof(ffi.typeof("struct " + n)) - 1,
         "enum": lambda n: list(ffi.typeof("enum " + n).elements)[0] - 5,
+        "struct-fields": lambda n: [f for f, _ in ffi.typeof("struct " + n).fields],
+        "anon-fields": lambda n: [f for f, _ in ffi.typeof(n).fields],
     }
     out = []
     for kind, name, declared, want in plan:
@@ -356,8 +391,17 @@ def lookup_all(ctx, d, ffi, lib, mode):
     plan = lookup_plan(ctx, d, lib is not None)
     obs = forked(lambda: lookup_run(plan, ffi, lib))
     keyof = {"const": "consts", "const-lib": "consts", "const-arraylen": "consts", "typedef": "types",
-             "struct": "stags", "enum": "etags"}
+             "struct": "stags", "enum": "etags", "struct-fields": "stags", "anon-fields": "anons"}
     if obs in ("hang", "died"):
+        # find the single lookup that does it, so that the failing input names it
+        for item in plan:
+            if forked(lambda: lookup_run([item], ffi, lib)) in ("hang", "died"):
+                case = {"part": "B", "mode": mode, "kind": item[0], "name": item[1], "declared": True,
+                        "cdef": d["cdef"]}
+                ctx.case((mode, "liveness", item[1]), sample=None)
+                ctx.fail(case, "the runtime lookup of declared %s %r in the generated module %s" %
+                         (item[0], item[1], "does not terminate" if obs == "hang" else "crashed the process"))
+                return []
         case = {"part": "B", "mode": mode, "kind": "liveness", "name": plan[0][1], "declared": True, "cdef": d["cdef"]}
         ctx.case((mode, "liveness"), sample=None)
         ctx.fail(case, "a runtime name lookup in the generated module %s" %
@@ -366,7 +410,7 @@ def lookup_all(ctx, d, ffi, lib, mode):
     res = []
     for (kind, name, declared, want), (found, got) in zip(plan, obs):
         case = {"part": "B", "mode": mode, "kind": kind, "name": name, "declared": declared, "cdef": d["cdef"]}
-        allnames = d[keyof[kind]]
+        allnames = [a[0] if isinstance(a, list) else a for a in d[keyof[kind]]]
         ctx.case((mode, kind, tuple(allnames), name) if shares_prefix(allnames, name) else None, sample=None)
         ctx.count("B:%s:%s" % (kind, "declared" if declared else "undeclared"))
         if declared and (not found or got != want):
@@ -409,6 +453,8 @@ def part_b(ctx, nmods, oracle_only=False, api=False):
         tabof = {"const": "globals", "const-lib": "globals", "const-arraylen": "globals",
                  "typedef": "typenames", "struct": "struct_unions", "enum": "enums"}
         for kind, name, found in res:
+            if kind not in tabof:
+                continue
             tab = tabs[tabof[kind]]
             lines.append("table " + " ".join(t.hex() or "-" for t in tab))
             expect.append(None)
@@ -423,6 +469,103 @@ def part_b(ctx, nmods, oracle_only=False, api=False):
             mfound = o != "ok -1"
             if mfound != found:
                 ctx.disagree(case, found, o, "generated table lookup vs model")
+
+
+# ---------------------------------------------------------------- part C
+
+NAME_WRAP = """
+void verif_realize(char *t, const char *p, const char *s) { _realize_name(t, p, s); }
+void verif_unrealize(char *t, const char *s) { _unrealize_name(t, s); }
+"""
+
+
+def load_names(ctx):
+    import realize_name
+    so = os.path.join(ctx.scratch, "realize_name_wrap.so")
+    if not os.path.exists(so):
+        c = os.path.join(ctx.scratch, "realize_name_wrap.c")
+        with open(c, "w") as f:
+            f.write("#include <string.h>\n" + "".join(realize_name.functions_text(common.REPO)) + NAME_WRAP)
+        common.compile_shared(c, so)
+    lib = ctypes.CDLL(so)
+    lib.verif_realize.argtypes = [ctypes.c_char_p, ctypes.c_char_p, ctypes.c_char_p]
+    lib.verif_realize.restype = None
+    lib.verif_unrealize.argtypes = [ctypes.c_char_p, ctypes.c_char_p]
+    lib.verif_unrealize.restype = None
+    return lib
+
+
+KW = ["struct", "union", "enum"]
+
+
+def name_shapes(rng, n):
+    """Identifiers of every shape the mapping distinguishes: plain, keyword-prefixed without a space
+    (struct_pt, unionX, enumerated), a keyword alone with a suffix char, short prefixes of keywords."""
+    out = ["struct_pt", "structure_t", "union_val_t", "unionized", "enumerated_t", "enum_", "structs",
+           "stru", "unio", "enu", "s", "u", "e", "pt", "x1", "_", "struc_t", "uni0n", "Struct_a", "xstruct"]
+    for _ in range(n):
+        r = rng.random()
+        tail = "".join(rng.choice(ALPHA + "ptxyz") for _ in range(rng.randint(0, 5)))
+        if r < 0.5:
+            out.append(rng.choice(KW) + rng.choice(ALPHA + "sdex") + tail)
+        elif r < 0.7:
+            k = rng.choice(KW)
+            out.append(k[:rng.randint(1, len(k))] + tail)
+        else:
+            out.append(rng.choice("abpqSUE_") + tail)
+    return [x for x in out if x not in KEYWORDS]
+
+
+def part_c(ctx, n, oracle_only=False):
+    lib = load_names(ctx)
+    names = name_shapes(ctx.rng, n)
+
+    def run():
+        res = []
+        for nm in names:
+            row = []
+            for tag in (nm, "$" + nm, "$%d" % (len(nm) + 1), "$$" + nm, "$"):
+                for pfx in ("struct ", "union "):
+                    t = ctypes.create_string_buffer(len(tag) + 40)
+                    lib.verif_realize(t, pfx.encode(), tag.encode())
+                    realized = t.value.decode("latin-1")
+                    t2 = ctypes.create_string_buffer(len(realized) + 40)
+                    lib.verif_unrealize(t2, realized.encode("latin-1"))
+                    row.append([pfx, tag, realized, t2.value.decode("latin-1")])
+            t3 = ctypes.create_string_buffer(len(nm) + 40)
+            lib.verif_unrealize(t3, ("enum " + nm).encode())
+            row.append(["enum ", nm, "enum " + nm, t3.value.decode("latin-1")])
+            res.append(row)
+        return res
+
+    obs = forked(run)
+    if obs in ("hang", "died"):
+        case = {"part": "C", "names": names}
+        ctx.case(("C", "liveness"), sample=case)
+        ctx.fail(case, "_realize_name/_unrealize_name %s on one of these names" %
+                 ("does not terminate" if obs == "hang" else "crashed the process"))
+        return
+    lines, expect = [], []
+    for row in obs:
+        for pfx, tag, realized, back in row:
+            case = {"part": "C", "prefix": pfx, "tag": tag, "realized": realized, "unrealized": back}
+            ctx.case(("C", pfx, tag), sample=case)
+            ctx.count("C:" + ("keyword-prefixed" if any(tag.lstrip("$").startswith(k) for k in KW) else "other"))
+            # property oracle: the name under which the entry is looked up again is the tag it was stored under
+            if back != tag:
+                ctx.fail(case, "the table tag %r is realized as %r, which maps back to %r: the runtime lookup "
+                               "searches the struct_unions table for the wrong name" % (tag, realized, back))
+            if pfx != "enum ":
+                lines.append("realize %s %s" % (hx(pfx), hx(tag)))
+                expect.append((case, hx(realized)))
+            lines.append("unrealize " + hx(realized))
+            expect.append((case, hx(back)))
+    if oracle_only:
+        return
+    out = ctx.driver(lines)
+    for o, (case, want) in zip(out, expect):
+        if o != "ok " + want:
+            ctx.disagree(case, want, o, "_realize_name/_unrealize_name vs model")
 
 
 def _quiet(fn):
@@ -445,11 +588,13 @@ def _quiet(fn):
 def correspond(ctx):
     sys.path.insert(0, ctx.scratch)
     part_a(ctx, ctx.n(150, 5000))
+    part_c(ctx, ctx.n(200, 5000))
     part_b(ctx, ctx.n(14, 200), api=True)
 
 
 def search(ctx):
     part_a(ctx, ctx.n(1500, 20000), oracle_only=True)
+    part_c(ctx, ctx.n(2000, 20000), oracle_only=True)
     part_b(ctx, ctx.n(40, 400), oracle_only=True, api=True)
 
 
@@ -461,6 +606,18 @@ def replay(ctx, obj):
         want = case["table"].index(case["query"]) if case["query"] in case["table"] else -1
         print("search_sorted(%r, %r) = %d, declared index %d" % (case["table"], case["query"], got, want))
         return 0 if got == want else 1
+    if case.get("part") == "C":
+        lib = load_names(ctx)
+        t = ctypes.create_string_buffer(len(case["tag"]) + 40)
+        if case["prefix"] == "enum ":
+            realized = "enum " + case["tag"]
+        else:
+            lib.verif_realize(t, case["prefix"].encode(), case["tag"].encode())
+            realized = t.value.decode("latin-1")
+        t2 = ctypes.create_string_buffer(len(realized) + 40)
+        lib.verif_unrealize(t2, realized.encode("latin-1"))
+        print("tag %r -> %r -> %r" % (case["tag"], realized, t2.value.decode("latin-1")))
+        return 0 if t2.value.decode("latin-1") == case["tag"] else 1
     import cffi
     sys.path.insert(0, ctx.scratch)
     ffi = cffi.FFI()
@@ -475,6 +632,14 @@ def replay(ctx, obj):
             r = m.ffi.integer_const(name)
         elif kind == "typedef":
             r = m.ffi.typeof(name)
+        elif kind in ("anon-fields", "struct-fields"):
+            tn = name if kind == "anon-fields" else "struct " + name
+            r = forked(lambda: [f for f, _ in m.ffi.typeof(tn).fields])
+            want = [f for f in re.findall(r"c25f_\d+_\d+", re.search(
+                r"typedef (?:struct|union) \{([^}]*)\} %s;" % re.escape(name), case["cdef"]).group(1))] \
+                if kind == "anon-fields" else ["x"]
+            print("fields of %r: %r, declared %r" % (tn, r, want))
+            return 0 if r == want else 1
         else:
             r = m.ffi.typeof(kind + " " + name)
         found = True
